@@ -606,6 +606,9 @@ class Tensor:
     def flatten(self):
         return reshape(self, [-1])
 
+    def clamp(self, min=None, max=None):  # noqa: A002
+        return clamp(self, min, max)
+
     def topk(self, k, dim=-1, largest=True, sorted=True):  # noqa: A002
         return topk(self, k, dim, largest, sorted)
 
@@ -722,6 +725,32 @@ def _bump(t, parents):
             t.is_leaf = False
 
 
+def _narrow32(a):
+    """concrete python floats / rationals stored into a 32-bit floating tensor take the nearest float32 value (symbolic entries stay exact:
+    rounding of symbolic data is outside the model)"""
+    out = None
+    for ix in (_np.ndindex(*a.shape) if a.ndim else [()]):
+        v = a[ix]
+        if _isinstance(v, C):
+            continue
+        if _isinstance(v, _py_complex):
+            w = _py_complex(_py_float(_np.float32(v.real)), _py_float(_np.float32(v.imag)))
+        elif _isinstance(v, (_py_float, Fraction)) and not _isinstance(v, _py_bool):
+            f = _py_float(v)
+            if f != f or f in (_py_float('inf'), -_py_float('inf')) or _py_abs(f) > 3.0e38:
+                continue
+            w = _py_float(_np.float32(f))
+            if _isinstance(v, Fraction):
+                w = Fraction(w)
+        else:
+            continue
+        if w != v:
+            if out is None:
+                out = a.copy()
+            out[ix] = w
+    return a if out is None else out
+
+
 def _cast(t, dt):
     if dt.cat < 3 and t.dtype.cat == 3:
         a = _np.frompyfunc(_sc.re_part, 1, 1)(t.a) if t.a.size else t.a.copy()
@@ -733,6 +762,8 @@ def _cast(t, dt):
         a = t.a.copy()
     else:
         a = t.a.copy()
+    if dt.cat >= 2 and (dt.bits // (2 if dt.is_complex else 1)) == 32:
+        a = _narrow32(a)
     return _mk(a, dt, (t,))
 
 
@@ -1168,6 +1199,8 @@ def tensor(data, dtype=None, device=None, requires_grad=False):
     if a.ndim == 0:
         b[()] = _pyify(a[()])
     dt = dtype or _infer_dtype_from_values(b)
+    if dt.cat >= 2 and (dt.bits // (2 if dt.is_complex else 1)) == 32:
+        b = _narrow32(b)
     t = Tensor(b, dt)
     if requires_grad:
         t.requires_grad = True
@@ -1219,6 +1252,35 @@ def where(cond, a=None, b=None):
     if _isinstance(a, Tensor) and _isinstance(b, Tensor):
         dt = promote_types(a.dtype, b.dtype)
     return _mk(out, dt, tuple(x for x in (a, b) if _isinstance(x, Tensor)))
+
+
+def clamp(t, min=None, max=None):  # noqa: A002
+    if min is None and max is None:
+        raise RuntimeError("torch.clamp: At least one of 'min' or 'max' must not be None")
+    if t.dtype.is_complex:
+        raise RuntimeError('clamp is not supported for complex types')
+    lo = _pyify(min.a.reshape(-1)[0]) if _isinstance(min, Tensor) and min.a.size == 1 else min
+    hi = _pyify(max.a.reshape(-1)[0]) if _isinstance(max, Tensor) and max.a.size == 1 else max
+    if _isinstance(lo, Tensor) or _isinstance(hi, Tensor):
+        unsupported('clamp with tensor bounds')
+    if _isinstance(lo, _py_float):
+        lo = Fraction(lo)
+    if _isinstance(hi, _py_float):
+        hi = Fraction(hi)
+    out = _np.empty(t.a.shape, dtype=object)
+    it = _np.ndindex(*t.a.shape) if t.a.ndim else [()]
+    for ix in it:
+        v = t.a[ix]
+        # decided per entry by the explorer (fork), as torch.where
+        if lo is not None and _py_bool(v < lo):
+            v = lo if not hasattr(t.a[ix], 't') or not hasattr(t.a[ix], 'key') else t.a[ix] * 0 + lo
+        elif hi is not None and _py_bool(v > hi):
+            v = hi if not hasattr(t.a[ix], 't') or not hasattr(t.a[ix], 'key') else t.a[ix] * 0 + hi
+        out[ix] = v
+    return _mk(out, t.dtype, (t,))
+
+
+clip = clamp
 
 
 def is_tensor(x):
